@@ -822,6 +822,96 @@ func genFailHopCase(r *rand.Rand) Sess {
 	return s
 }
 
+// transitionsAt: the lines that are valid transition commands when typed in level t and do not make
+// the device ask for a secret, with the level each leads to.
+func (s *Sess) transitionsAt(t int) (lines []string, to []int) {
+	if p := s.Levels[t].Parent; p >= 0 {
+		lines, to = append(lines, s.Levels[t].Deesc), append(to, p)
+	}
+	for i, l := range s.Levels {
+		if l.Parent == t && !l.Asks {
+			lines, to = append(lines, l.Esc), append(to, i)
+		}
+	}
+	return
+}
+
+// withMoves puts 1-2 transition commands into the payload of an operation that goes to level t.
+func (s *Sess) withMoves(r *rand.Rand, op Op, t int) Op {
+	mode := t
+	var mv []string
+	for k := 1 + r.Intn(4)/3; k > 0; k-- {
+		lines, to := s.transitionsAt(mode)
+		if len(lines) == 0 {
+			break
+		}
+		i := r.Intn(len(lines))
+		mv = append(mv, lines[i])
+		mode = to[i]
+	}
+	if len(mv) == 0 {
+		return op
+	}
+	switch op.Kind {
+	case "interactive":
+		op.Inter = []string{"move", "confirm+move"}[r.Intn(2)]
+		op.Lines = mv
+	case "command":
+		op.Lines = mv[:1]
+	case "commands", "config", "configs":
+		// the classic trailing "end", or transition commands among ordinary lines
+		lines := s.pickLines(r, r.Intn(3))
+		if r.Intn(3) == 0 {
+			at := r.Intn(len(lines) + 1)
+			lines = append(lines[:at:at], append(mv, lines[at:]...)...)
+		} else {
+			lines = append(lines, mv...)
+		}
+		op.Lines = lines
+	default:
+		return op
+	}
+	return op
+}
+
+// genPayloadMoveCase: payloads that legitimately move the device behind the cached level.
+func genPayloadMoveCase(r *rand.Rand) Sess {
+	n := 2 + r.Intn(5)
+	shape := []string{"random", "random", "chain", "star", "caterpillar"}[r.Intn(5)]
+	variant := []string{"plain", "auth", "overlap", "auth+overlap", "plain"}[r.Intn(5)]
+	s := newSess(r, "payloadmove", variant, randomTree(r, n, shape), r.Intn(4) != 0)
+	s.Shape = shape
+	last, lastMoved := -1, false
+	for k := 4 + r.Intn(7); k > 0; k-- {
+		t := r.Intn(n)
+		var op Op
+		if lastMoved && r.Intn(10) < 6 {
+			// an operation that re-reads the prompt, aimed at the level the driver still believes in
+			t = last
+			for {
+				op = s.opTowards(r, t)
+				if op.Kind != "command" && op.Kind != "commands" {
+					break
+				}
+			}
+		} else if r.Intn(8) == 0 {
+			op = Op{Kind: []string{"command", "commands"}[r.Intn(2)], Level: -1, Lines: s.pickLines(r, 1)}
+			t = s.Default
+		} else {
+			op = s.opTowards(r, t)
+		}
+		lastMoved = false
+		if op.Kind != "acquire" && r.Intn(100) < 45 {
+			before := fmt.Sprint(op.Lines, op.Inter)
+			op = s.withMoves(r, op, t)
+			lastMoved = fmt.Sprint(op.Lines, op.Inter) != before
+		}
+		s.Ops = append(s.Ops, op)
+		last = t
+	}
+	return s
+}
+
 func gen(tier string, seed int64) []mon.Case {
 	var cs []mon.Case
 	maxN := 4
@@ -879,12 +969,15 @@ func gen(tier string, seed int64) []mon.Case {
 	for i := 0; i < nSeq; i++ {
 		cs = append(cs, mon.MkCase(fmt.Sprintf("c04/seq-%05d", i), genSeqCase(rng())))
 	}
-	nFail := 40
+	nFail, nMove := 40, 40
 	if tier == "thorough" {
-		nFail = 400
+		nFail, nMove = 400, 400
 	}
 	for i := 0; i < nFail; i++ {
 		cs = append(cs, mon.MkCase(fmt.Sprintf("c04/failhop-%04d", i), genFailHopCase(rng())))
+	}
+	for i := 0; i < nMove; i++ {
+		cs = append(cs, mon.MkCase(fmt.Sprintf("c04/paymove-%04d", i), genPayloadMoveCase(rng())))
 	}
 	return cs
 }
